@@ -35,6 +35,7 @@ type Base struct {
 	Structs []Struct
 	byKind  map[string][]int
 	kinds   []string
+	wkinds  []string
 }
 
 func repoRoot() string {
@@ -257,6 +258,7 @@ func (b *Base) index() {
 		b.kinds = append(b.kinds, k)
 	}
 	sort.Strings(b.kinds)
+	b.buildWeighted()
 }
 
 // structAt names the structure a file offset belongs to (innermost: the last structure starting at or before the
